@@ -145,7 +145,12 @@ class _Injector(object):
     """counts the I/O steps of one run; raises Crash at step `crash_at` (before the
     operation, or -- partial=True, write steps only -- after half of the data)"""
 
-    def __init__(self, crash_at=None, partial=False):
+    def __init__(self, crash_at=None, partial=False, watch=None):
+        # `watch`: the target path; its content as visible in the file system at the very moment
+        # of the crash is what a process death leaves behind (data still sitting in a Python-level
+        # write buffer is lost), so it is recorded before the exception starts unwinding
+        self.watch = watch
+        self.at_crash = None
         self.n = 0
         self.log = []
         self.crash_at = crash_at
@@ -158,6 +163,8 @@ class _Injector(object):
         self.log.append(what)
         if k == self.crash_at and not (self.partial and what.startswith('write')):
             self.fired = True
+            if self.watch is not None:
+                self.at_crash = ('seen', _get(self.watch))
             raise Crash('%d:%s' % (k, what))
         return k
 
@@ -180,6 +187,8 @@ class _File(object):
             self._f.write(s[:len(s) // 2])
             self._f.flush()
             self._inj.fired = True
+            if self._inj.watch is not None:
+                self._inj.at_crash = ('seen', _get(self._inj.watch))
             raise Crash('%d:half-done write' % k)
         return self._f.write(s)
 
@@ -364,7 +373,7 @@ def _write_path(case, ctx):
         points += [(k, True) for k, w in enumerate(count.log) if w.startswith('write')]
         for k, partial in points:
             _put(path, old)
-            inj = _Injector(k, partial)
+            inj = _Injector(k, partial, watch=path)
             try:
                 with injected(inj):
                     emit_file(ffi, target, path)
@@ -375,14 +384,17 @@ def _write_path(case, ctx):
                     raise HarnessError('crash point %d (%s) not reached; steps seen: %r' % (k, count.log[k], inj.log))
                 ctx.fail('the injected crash at step %d (%s) was swallowed by the write path'
                          % (k, count.log[k]), **detail)
-            got = _get(path)
-            if got != old and got != new:
-                what = 'absent' if got is None else ('empty' if got == '' else
-                       'a %d-char prefix of the new text' % len(got) if new.startswith(got) else
-                       '%d chars, neither old nor new' % len(got))
-                ctx.fail('crash at step %d/%d (%s%s) with previous state %r leaves the target %s'
-                         % (k, count.n, count.log[k], ', half written' if partial else '', state, what),
-                         steps=count.log, **detail)
+            # two observations: the file system at the moment of the crash (process death), and
+            # the state after the exception has unwound (an abort that still runs clean-up code)
+            for moment, got in (('at the moment of the crash', inj.at_crash[1] if inj.at_crash else _get(path)),
+                                ('after unwinding', _get(path))):
+                if got != old and got != new:
+                    what = 'absent' if got is None else ('empty' if got == '' else
+                           'a %d-char prefix of the new text' % len(got) if new.startswith(got) else
+                           '%d chars, neither old nor new' % len(got))
+                    ctx.fail('crash at step %d/%d (%s%s) with previous state %r leaves the target %s (%s)'
+                             % (k, count.n, count.log[k], ', half written' if partial else '', state, what, moment),
+                             steps=count.log, **detail)
             ctx.note([cdef, cuts, modname, target, state, k, partial],
                      len(kinds) >= 3 and state in ('different', 'longer', 'shorter', 'empty'),
                      ['prev=' + state, 'crash@' + count.log[k].split('(')[0] + ('/half' if partial else ''),
